@@ -503,6 +503,32 @@ func (x *Evaluator) evalKnown(callee *ssa.Function, call *ssa.Call, idx int, e *
 		return x.evalSprintf(args, e, c), true
 	case "fmt.Errorf", "errors.New":
 		return OpaqueV{"error"}, true
+	case "(*strings.Builder).String__placeholder":
+		return nil, false
+	}
+	if strings.HasPrefix(full, "slices.Contains[") && len(args) == 2 {
+		// membership of a constant in a constant list (a table of admissible operators)
+		if l, ok := x.evalC(args[0], e, c).(ListV); ok && l.IsFinite {
+			if needle, ok := constKeyOf(x.evalC(args[1], e, c)); ok {
+				all, found := true, false
+				for _, el := range l.Finite {
+					k, ok := constKeyOf(el)
+					if !ok {
+						all = false
+						break
+					}
+					if k == needle {
+						found = true
+					}
+				}
+				if all {
+					return boolConst(found), true
+				}
+			}
+		}
+		return BoolV{Desc: "contains(" + describeVal(x.evalC(args[0], e, c)) + "," + describeVal(x.evalC(args[1], e, c)) + ")"}, true
+	}
+	switch full {
 	case "(*strings.Builder).String":
 		if al, ok := args[0].(*ssa.Alloc); ok {
 			return strV(x.builderText(al, call, e, c)), true
